@@ -152,6 +152,8 @@ var verifRunCorpus = [...]string{
 	"declare -A m; m[i]=5; echo ${m[\x01i]}", "declare -A m; m[i\x011]=5; echo ${m[@]}", "declare -A m=([\x01i]=5); echo ${!m[@]}", "declare -A m; : ${m[i\x01]=5}; echo ${m[i]}", "declare -A m=([a]=1); echo ${m[a\x01]} ${#m[@]}",
 	"a=(1 2 3); echo ${a[\x011]}", "a=(1 2 3); a[1\x01]=5; echo ${a[@]}", "a=(1 2 3); echo ${a[@]:\x01:1}", "a=(1 2); a+=(\x01); echo ${#a[@]}", "a=([\x011]=x); echo ${a[@]}", "unset a[\x01]; a=(1); unset 'a[0\x01]'",
 	"x=abc; echo ${x:\x01}", "x=abc; echo ${x:1:\x01}", "x=abc; echo ${x\x01b}", "x=abc; echo ${x/\x01/y}", "x=abc; echo ${x^\x01}", "x=abc; echo ${x@\x01}", "x=abc; echo ${#x\x01}", "x=abc; echo ${!x\x01}", "x=abc; echo ${x:-\x01} ${x:+\x01} ${y:=\x01}", "echo ${y:?\x01}", "set -- a b; echo ${@:\x01} ${*:1:\x01} ${#\x01}",
+	// the same operators on unset and empty values
+	"echo ${y@\x01} ${y^\x01} ${y,\x01} ${y:\x01} ${y/\x01} ${y#\x01} ${y%\x01} ${#y\x01}", "y=; echo ${y@\x01} ${y^\x01} ${y,\x01} ${y:\x01} ${y/\x01} ${y#\x01} ${y%\x01}", "echo ${3@\x01} ${9:\x01}", "a=(); echo ${a[0]@\x01} ${a[@]@\x01} ${a[@]:\x01}", "declare -A m; echo ${m[k]@\x01} ${m[@]\x01}",
 	"echo $((1 \x01 2))", "echo $((x\x01))", "x=1; echo $((x \x01= 2)) $x", "((x\x01)); echo $?", "let x\x011; echo $x", "for ((i=0; i<2; i++\x01)); do echo $i; done", "echo $((1 ? 2 \x01 3))", "a=(1 2); echo $((a[\x01]))", "echo $((2 ** \x011)) $((1 / \x010))",
 	"[[ a \x01 b ]]; echo $?", "[[ -\x01 a ]]; echo $?", "[[ a =~ \x01 ]]; echo $?", "[[ a == [\x01] ]]; echo $?", "[ a \x01 b ]; echo $?", "test -\x01 a; echo $?", "case a in \x01) echo m;; esac", "case a\x01 in a*) echo m;; esac", "case a in a) echo 1;\x01& b) echo 2;; esac",
 	"f() { echo $1; return \x01; }; f a", "f() { local x=\x01; echo $x; }; f", "f() { shift \x01; echo $#; }; f a b", "set -\x01; echo $-", "set -o \x01", "shopt -s \x01", "trap 'echo t' \x01; kill -0 $$", "eval 'echo \x01'", "read x <<< \x01; echo $x", "getopts a\x01 o -a; echo $o", "printf '%\x01' 1", "echo -\x01 a",
@@ -168,7 +170,7 @@ func Verif_c28_corpus() {
 	lang := verifLang(verifParam("lang"))
 	src := []byte(verifRunCorpus[k])
 	hole := verifByte("hole")
-	verifAssume(verifInSet(hole, "ab10_ \t\n\\'\"$`{}()[]<>|&;#=+-*?!@%/:,.~^"))
+	verifAssume(verifInSet(hole, "ab10_ \t\n\\'\"$`{}()[]<>|&;#=+-*?!@%/:,.~^uUQLEPAKk"))
 	for i := range src {
 		if src[i] == 1 {
 			src[i] = hole
